@@ -5,6 +5,7 @@ import (
 	"os"
 	"path/filepath"
 	"sort"
+	"strings"
 
 	"github.com/JunNishimura/Goit/internal/sha"
 	"github.com/fatih/color"
@@ -103,7 +104,18 @@ func (r *Refs) IsBranchExist(branchName string) bool {
 	return p != NewBranchFlag
 }
 
+func isValidBranchName(branchName string) bool {
+	if branchName == "" || branchName == "." || branchName == ".." {
+		return false
+	}
+	return !strings.ContainsAny(branchName, `/\`)
+}
+
 func (r *Refs) AddBranch(rootGoitPath, newBranchName string, newBranchHash sha.SHA1) error {
+	if !isValidBranchName(newBranchName) {
+		return fmt.Errorf("'%s' is not a valid branch name", newBranchName)
+	}
+
 	// check if branch already exists
 	n := r.getBranchPos(newBranchName)
 	if n != NewBranchFlag {
@@ -125,6 +137,10 @@ func (r *Refs) AddBranch(rootGoitPath, newBranchName string, newBranchHash sha.S
 }
 
 func (r *Refs) RenameBranch(rootGoitPath, curBranchName, newBranchName string) error {
+	if !isValidBranchName(newBranchName) {
+		return fmt.Errorf("'%s' is not a valid branch name", newBranchName)
+	}
+
 	// check if new branch name is not used for other branches
 	n := r.getBranchPos(newBranchName)
 	if n != NewBranchFlag {
